@@ -103,7 +103,10 @@ def gen_mode(rng, x):
     if len(fin) == len(x) and rng.uniform() < 0.12:
         # integer-typed input (e.g. heights read as int64 / int32): same values, another dtype of the intermediates
         xi = np.round(x).astype(np.int64 if rng.uniform() < 0.5 else np.int32)
-        if m != 'step-scale' or not any(v in set(kw['steps']) for v in x.tolist()):
+        ok = m != 'step-scale' or not any(v in set(kw['steps']) for v in x.tolist())
+        if m == 'minmax-scale' and max(float(xi.max() - xi.min()), float(kw.get('min_range', 0.0))) < 1e-6:
+            ok = False          # rounding collapsed the span: outside the stated domain (span >= 1e-6)
+        if ok:
             x = xi
     return m, kw, x
 
